@@ -24,6 +24,7 @@ type.  `C06_answers_depend_on_languages_only` states this explicitly: operands w
 languages — over possibly different state types — get the same nine answers.
 -/
 import AutomataVerif.Proofs.CompareEq
+import AutomataVerif.Proofs.CompareEqPick
 import AutomataVerif.Proofs.CompareFinite
 import Mathlib.Data.Set.Finite.Basic
 
@@ -88,13 +89,57 @@ theorem C06_isdisjoint_iff (A B : AV.DFA σ α) (hA : A.validate = .ok ()) (hB :
 /-! ## equality (Hopcroft–Karp) -/
 
 /-- **`==` is exact**: whatever Boolean `A == B` returns is `True` iff both DFAs give the
-same verdict on every word (for every union–find representative the loop picks; the
-proof is the generic Hopcroft–Karp theorem `HK.hkLoop_iff`). -/
+same verdict on every word.  `DFA.eqv` is the loop with ONE fixed linking direction of the
+union–find (`HK.hkLoop_iff`); networkx links by weight, so the statement about the code's
+loop is `C06_eq_iff_pick` below (every representative choice), and
+`C06_eq_pick_independent` says that `eqv` is the common value. -/
 theorem C06_eq_iff (A B : AV.DFA σ α) (hA : A.validate = .ok ()) (hB : B.validate = .ok ())
     (hs : A.symsEq B = true) {b : Bool} (h : A.eqv B = some b) :
     b = true ↔ ∀ w, A.accepts w = B.accepts w := by
   obtain ⟨b', hb', hiff⟩ := eqv_spec A B hA hB hs
   rw [hb'] at h; cases h; exact hiff
+
+/-- **`==` is exact for every union–find policy.**  `eqvPick pick` is `__eq__` run through
+the generic loop `HKG.run` whose `union` lets `pick` decide which of the two roots survives
+(networkx: the heavier class, ties by set-iteration order — `HKG.nxPick tie` for any `tie`).
+For every `pick`, valid operands over one alphabet get a Boolean (neither `NotImplemented`
+nor out of fuel) and it is `True` iff both DFAs give the same verdict on every word. -/
+theorem C06_eq_iff_pick
+    (pick : HKG.UF (EqState σ) → EqState σ → EqState σ → Bool)
+    (A B : AV.DFA σ α) (hA : A.validate = .ok ()) (hB : B.validate = .ok ())
+    (hs : A.symsEq B = true) :
+    ∃ b, A.eqvPick pick B = .val b ∧ (b = true ↔ ∀ w, A.accepts w = B.accepts w) :=
+  EqPick.eqvPick_spec pick A B hA hB hs
+
+/-- The networkx policy is an instance (any tie-break). -/
+theorem C06_eq_iff_nx (tie : EqState σ → EqState σ → Bool)
+    (A B : AV.DFA σ α) (hA : A.validate = .ok ()) (hB : B.validate = .ok ())
+    (hs : A.symsEq B = true) :
+    ∃ b, A.eqvNx tie B = .val b ∧ (b = true ↔ Lang A = Lang B) := by
+  obtain ⟨b, hb, hiff⟩ := C06_eq_iff_pick (HKG.nxPick tie) A B hA hB hs
+  exact ⟨b, hb, by rw [hiff, Lang_eq_iff]⟩
+
+/-- **The answer of `==` does not depend on the union–find's choices**, and the
+fixed-direction loop `eqv` used by `compareAll` (and by the driver) is that common value:
+on valid operands over one alphabet `eqvPick pick A B = val b ↔ eqv A B = some b`. -/
+theorem C06_eq_pick_independent
+    (pick : HKG.UF (EqState σ) → EqState σ → EqState σ → Bool)
+    (A B : AV.DFA σ α) (hA : A.validate = .ok ()) (hB : B.validate = .ok ())
+    (hs : A.symsEq B = true) :
+    ∃ b, A.eqvPick pick B = .val b ∧ A.eqv B = some b := by
+  obtain ⟨b, hb, hiff⟩ := C06_eq_iff_pick pick A B hA hB hs
+  obtain ⟨b', hb', hiff'⟩ := eqv_spec A B hA hB hs
+  refine ⟨b, hb, ?_⟩
+  rw [hb']
+  have : b' = b := by
+    cases b <;> cases b' <;> simp_all
+  rw [this]
+
+/-- For every `pick`, `NotImplemented` exactly when the alphabets differ. -/
+theorem C06_eq_pick_notimplemented_iff
+    (pick : HKG.UF (EqState σ) → EqState σ → EqState σ → Bool) (A B : AV.DFA σ α) :
+    A.eqvPick pick B = .notImplemented ↔ A.symsEq B = false :=
+  EqPick.eqvPick_notImplemented_iff pick A B
 
 /-- `==` returns `NotImplemented` exactly when the alphabets differ. -/
 theorem C06_eq_notimplemented_iff (A B : AV.DFA σ α) : A.eqv B = none ↔ A.symsEq B = false :=
@@ -220,6 +265,19 @@ theorem C06_unary_depend_on_language_only (d : AV.DFA σ α) (d' : AV.DFA σ' α
   · cases hx : d.isempty <;> cases hy : d'.isempty <;> simp_all
   · cases hx : d.isfinite <;> cases hy : d'.isfinite <;> simp_all
 
+/-- Sanity corollary: over the empty alphabet every language is finite. -/
+theorem C06_isfinite_empty_alphabet (d : AV.DFA σ α) (hv : d.validate = .ok ()) (pd : d.PyShape)
+    (h0 : d.syms = []) : d.isfinite = true := by
+  have wf := (DFA.validate_eq_ok d).mp hv
+  rw [C06_isfinite_iff d hv pd]
+  refine (Set.finite_singleton ([] : List α)).subset ?_
+  intro w hw
+  have := syms_of_accepts wf hw
+  rw [h0] at this
+  cases w with
+  | nil => rfl
+  | cons a w => exact absurd (this a (by simp)) (by simp)
+
 /-! ## non-vacuity -/
 
 /-- Partial: words over {0,1} ending the run in state 1 (`1` is missing from state 1). -/
@@ -278,6 +336,12 @@ example : exOne.compareAll exA = .ok
 example : exEps.compareAll exA = .ok
     { eq := false, ne := true, le := false, lt := false, ge := false, gt := false, sub := false, sup := false,
       disj := true } := by decide
+-- the pick-parametric loop under networkx's policy with either tie-break, and under the two
+-- constant policies: same answers as `eqv` (equal languages / different languages)
+example : exA.eqvNx (fun _ _ => true) exA' = .val true ∧ exA.eqvNx (fun _ _ => false) exA' = .val true ∧
+    exA.eqvPick (fun _ _ _ => true) exA' = .val true ∧ exA.eqvPick (fun _ _ _ => false) exA' = .val true ∧
+    exA.eqvNx (fun _ _ => true) exB = .val false ∧ exA.eqvPick (fun _ _ _ => false) exB = .val false ∧
+    exOne.eqvNx (fun _ _ => false) exA = .val false := by decide
 example : exA.isempty = false ∧ exA.isfinite = false ∧ exF.isempty = false ∧ exF.isfinite = true ∧
     exF.maxWordLength = .ok (some 2) := by decide
 example : ({ exF with finals := [3] } : AV.DFA Nat Nat).isempty = false ∧
